@@ -5,7 +5,7 @@ from ..core import core_oracle
 
 PROP = 'C05'
 LEVEL = 'exploration'
-BUDGET = {'quick': 4800, 'thorough': 96000}
+BUDGET = {'quick': 9600, 'thorough': 160000}
 RULE = ('cases = any well-formed chart whose fragments send internal events with and without '
         'delay + 10-40 ops over queue(str)/queue(Event)/queue(..., delay)/advance/step with '
         'delays and advances from {0,1/4,1/2,1,2,5} (equal due times frequent). A queue model '
